@@ -503,7 +503,14 @@ func detSeedField(r *Rng, c int) string {
 	case 9:
 		return asStr("0x" + hexOf(1+r.Intn(8)))
 	case 10:
-		return asStr(string(r.Bytes(1 + r.Intn(20)))) // arbitrary bytes
+		// arbitrary text; valid UTF-8 only: the seed is a JSON string in the wallet file (bytes that are not
+		// UTF-8 do not survive Serialize/Load - the API cannot deliver such a seed)
+		alphabet := []rune("abcdefghijklmnopqrstuvwxyzABCDEF0123456789 _-.,;:!?/\\\"'<>{}äöüßéñ中文日本語🔑")
+		var rs []rune
+		for i, n := 0, 1+r.Intn(20); i < n; i++ {
+			rs = append(rs, alphabet[r.Intn(len(alphabet))])
+		}
+		return asStr(strings.TrimSpace(string(rs)) + "x")
 	default:
 		return hexOf(1 + r.Intn(40))
 	}
